@@ -284,7 +284,26 @@ def check(case, rec):
         with h5spec.mem_file() as f:
             t.to_hdf5(f, gen_by, compress=case["compress"])
             dec2 = h5spec.decode(f)
+            # ... and once more into the group that already holds it: the
+            # library may refuse; if it accepts, the group holds the table
+            t3 = t.transform(lambda v, i, md: v * 4 - 1, axis=ax,
+                             inplace=False)
+            try:
+                t3.to_hdf5(f, gen_by, compress=case["compress"])
+                dec3 = h5spec.decode(f)
+            except Exception:
+                dec3 = None
         rec.cls("written-again-after-in-place-edit")
+        rec.cls("write-into-a-group-holding-a-table:%s" %
+                ("refused" if dec3 is None else "accepted"))
+        if dec3 is not None:
+            now3 = observe.snapshot(t3)
+            for key in ("csr_dense", "csc_dense"):
+                if dec3["problems"] or dec3[key] != now3["rows"]:
+                    bad("stale-content-after-second-write", "to_hdf5 into a "
+                        "group that already held a table was accepted, but "
+                        "%s decodes to %r (problems %r); written: %r" %
+                        (key, dec3[key], dec3["problems"], now3["rows"]))
         if dec2["problems"]:
             bad("spec-conformance", "second write: " +
                 "; ".join(dec2["problems"]))
